@@ -896,14 +896,57 @@ def expected_command(kind: str, a: dict, keyblobs: list, files: dict) -> Optiona
         return {"tag": TAGS["WR_KEYSTORE_TO_NV" if kind == "keystore_to_nv" else "WR_KEYSTORE_FROM_NV"],
                 "address": addr, "flags": mem << 8}
     if kind in ("keywrap", "encrypt"):
-        kb = [k for k in keyblobs if k.get("keyblob_id") == a.get("keyblob_id")]
+        kb = [k for k in keyblobs if isinstance(k, dict) and k.get("keyblob_id") == a.get("keyblob_id")]
+        if not kb:
+            # the statement names a key blob NUMBER that no `keyblob (N)` block declares
+            return {"refuse": f"key blob {a.get('keyblob_id')} is not declared"}
         if len(kb) != 1:
             return None
-        exp = {"tag": TAGS["LOAD"], "address": addr, "flags": 0, "keyblob": kb[0]}
+        ctx = keyblob_fields(kb[0])
+        if ctx is None or "load_opt" in a:
+            return None
+        exp = {"tag": TAGS["LOAD"], "address": addr, "flags": 0, "keyblob": kb[0], "ctx": ctx}
         if kind == "keywrap":
             exp["payload_len"] = 64
+            return exp
+        if "file" in a:
+            data = files.get(a["file"])
+        elif "values" in a:
+            try:
+                data = bytes.fromhex(a["values"])
+            except (ValueError, TypeError):
+                data = None
+        else:
+            data = None
+        if data is None:
+            return None
+        if ctx["end"] & 3 == 3:
+            # valid context with decryption enabled: ciphertext of the payload padded to the
+            # 512-byte image alignment ("all QSPI images generated by this tool will be sizes of
+            # multiple 512", KeyBlob._IMAGE_ALIGNMENT)
+            exp["encrypted"] = data
+            exp["payload_len"] = (len(data) + 511) // 512 * 512
+        else:
+            # "Encrypt only if the ADE and VLD flags are set": otherwise a plain load of the operand
+            exp["payload"] = data
         return exp
     return None
+
+
+def keyblob_fields(kb: dict) -> Optional[dict]:
+    """start / end / key / counter / byteSwap of a well-formed key blob definition, else None."""
+    try:
+        c = kb["keyblob_content"]
+        if not isinstance(c, list) or len(c) != 1:
+            return None
+        c = c[0]
+        start, end = c["start"], c["end"]
+        key, ctr = bytes.fromhex(c["key"]), bytes.fromhex(c["counter"])
+    except (KeyError, ValueError, TypeError):
+        return None
+    if not _u32(start) or not _u32(end) or start % 0x400 or start > end or len(key) != 16 or len(ctr) != 8:
+        return None
+    return {"start": start, "end": end, "key": key, "ctr": ctr, "byte_swap": bool(c.get("byteSwap", False))}
 
 
 def expected_simple(kind: str, a: dict) -> Optional[dict]:
